@@ -228,6 +228,52 @@ def setter_contracts(reg, PROP, tree, file, cls, builder, label=None, recv="self
 
 
 
+def class_getters(tree, file, cls):
+    """{property name: backing attribute} for the getters of a class whose body is exactly `return self.<attr>` (parse tree)."""
+    mod = tree.module(file)
+    out = {}
+    for c in mod.body:
+        if isinstance(c, _ast.ClassDef) and c.name == cls:
+            for n in c.body:
+                if isinstance(n, _ast.FunctionDef) and any(_ast.unparse(d) == 'property' for d in n.decorator_list):
+                    body = [b for b in n.body if not (isinstance(b, _ast.Expr) and isinstance(b.value, _ast.Constant))]
+                    if len(body) == 1 and isinstance(body[0], _ast.Return) and isinstance(body[0].value, _ast.Attribute) \
+                            and isinstance(body[0].value.value, _ast.Name) and body[0].value.value.id == 'self':
+                        out[n.name] = body[0].value.attr
+    return out
+
+
+def accessor_contracts(reg, PROP, tree, file, cls, externals=None, sorts=None, skip=(), value_sort="real"):
+    """'Reported parameters track what was set': for every property of `cls` (own or inherited, most derived definition) whose getter is
+    `return self._a` and which has a setter, the setter - when it returns normally - leaves `self._a == value`, and the backing attribute
+    of every OTHER such property of pre-existing objects is unchanged (frame).  Attributes that back no getter may be written freely."""
+    tree.prefer_stem = tree.abspath(file).rsplit('.', 1)[0]
+    backing, setters = {}, {}
+    for nm in tree.mro(cls):
+        ci = tree.class_info(nm)
+        if ci is None:
+            continue
+        g = class_getters(tree, ci.file, nm)
+        st = class_setters(tree, ci.file, nm)
+        for prop, attr in g.items():
+            backing.setdefault(prop, attr)
+        for prop, fn in st.items():
+            setters.setdefault(prop, (ci.file, nm, fn))
+    n = 0
+    for prop, (f, nm, fn) in sorted(setters.items()):
+        if prop in skip or prop not in backing:
+            continue
+        own = backing[prop]
+        others = {a for p_, a in backing.items() if p_ != prop} - {own}
+        allowed = sorted((self_attrs_written(fn) - others) | {own})
+        n += 1
+        reg.contract(f, "%s.%s.setter" % (nm, prop), PROP, name='%s:stores' % cls, self_cls=cls, sorts=dict(sorts or {}, value=value_sort),
+            externals=dict(externals or {}), raises_any=["ValueError", "TypeError"],
+            ensures=[("reported_value", "self.%s == value" % own)], modifies=allowed,
+            note='setter %s: getter returns self.%s; other reported parameters %s untouched' % (prop, own, sorted(others)))
+    return n
+
+
 def constructor_contract(reg, PROP, tree, file, cls, builder, label=None, recv="self", extra_depends=(), externals=None, sorts=None, raises_any=("ValueError",)):
     """The constructor establishes the coherence invariant: on every normal exit the builder (or notification) `label` has run AFTER the
     last write to any attribute it depends on - including the placeholder values a constructor assigns before it calls the setters."""
